@@ -6,7 +6,8 @@ from vlib import load_known, read_ndjson, write_ndjson, pmap, Infra, NCPU
 ASSUME = [
     "trees of the TLA+ universe are materialised by lib/prop_c15.py (kind of an entry determined by its name; symlinks point outside the walked directory)",
     "a non-idempotent patch (foo(x) -> foo(foo(x))) makes double processing visible in the bytes",
-    "arguments naming a directory below an excluded directory are not generated (the statement does not constrain them)",
+    "arguments naming a *directory* below an excluded directory are not generated (the statement does not constrain them); a file named explicitly is processed wherever it lives",
+    "relative arguments are spelled from the root of the tree or from one of its top-level directories (through '..'), with redundant spellings of a directory ('./x', 'x/', 'x/.')",
     "'fixed path order' is read as ascending absolute path (no name of the alphabet is a prefix of another, so component-wise order = string order)",
 ]
 
@@ -54,7 +55,11 @@ def q(l):
     return ", ".join('"%s"' % x for x in l)
 
 
-def materialise(t, args, sid):
+def KIND_IS_DIR(path):
+    return not path or path[-1] in DIRS
+
+
+def materialise(t, args, sid, rng=None):
     files, dirs, links = [], [], []
 
     def add(path):
@@ -78,17 +83,28 @@ def materialise(t, args, sid):
     files.append(dict(path="ext/x.go", content=GO))
     files.append(dict(path="p.patch", content=PATCH))
     argv = ["-v", "-p", "{ROOT}/p.patch"]
+    # the working directory: the root of the tree or one of its top-level directories; relative
+    # arguments are spelled relative to it (so they may go through ".."), with redundant spellings
+    # of the same directory ("./x", "x/", "x/.") mixed in
+    import posixpath
+    cwd = []
+    if rng is not None:
+        subs = [n for n in t["top"] if n in DIRS]
+        if subs and rng.random() < 0.5:
+            cwd = [rng.choice(subs)]
     for a in args:
         p = "/".join(a["path"])
         if a["abs"] == "1":
             s = "{ROOT}/w" + ("/" + p if p else "")
         else:
-            s = p if p else "."
+            s = posixpath.relpath("/r/" + p if p else "/r", "/r/" + "/".join(cwd) if cwd else "/r")
+            if rng is not None and KIND_IS_DIR(a["path"]) and a["dots"] != "1":
+                s = rng.choice([s, s, s, "./" + s, s + "/", s + "/."])
         if a["dots"] == "1":
             s += "/..."
         argv.append(s)
-    return dict(id=sid, files=files, dirs=["w"] + dirs, symlinks=links, args=argv, stdin="", cwd="w", strace=False,
-                meta=dict(tree=t, args=args))
+    return dict(id=sid, files=files, dirs=["w"] + dirs, symlinks=links, args=argv, stdin="", cwd="/".join(["w"] + cwd), strace=False,
+                meta=dict(tree=t, args=args, cwd=cwd))
 
 
 def observe(rec):
@@ -137,15 +153,19 @@ def run(ctx):
         trees = read_ndjson(out)
         ntrees += len(trees)
         scs = []
+        # half of the scenarios use trees with a Go file at the top and one inside a directory
+        # (arguments and working directories that differ then give different file sets)
+        rich = [t for t in trees if any(n in ("a.go", "b.go") for n in t["top"]) and
+                any(any(c in ("a.go", "b.go") for c in t["kids"].get(d, [])) for d in t["top"] if d in DIRS)] or trees
         for k in range(per):
-            t = ctx.rng.choice(trees)
+            t = ctx.rng.choice(rich if k % 2 else trees)
             n = ctx.rng.choice([1, 2, 2, 3])
             args = [ctx.rng.choice(t["args"]) for _ in range(n)]
             if ctx.rng.random() < 0.3:
                 args.append(dict(args[0]))                     # repeated argument
             if ctx.rng.random() < 0.3:
                 args.append(dict(args[0], abs="1" if args[0]["abs"] == "0" else "0"))   # same target, other form
-            scs.append(materialise(t, args, "c15-%d-%d" % (ai, k)))
+            scs.append(materialise(t, args, "c15-%d-%d" % (ai, k), ctx.rng))
         nscen += len(scs)
         recs = fr.run_cli(ctx, scs, "c15-%d" % ai)
         shards = NCPU
